@@ -464,6 +464,10 @@ def mutable_globals(index):
     return out
 
 
+ONESHOT_FACTORIES = {"zip", "map", "filter", "iter", "reversed", "enumerate", "itertools.chain", "itertools.cycle", "itertools.count",
+                     "itertools.product", "itertools.zip_longest", "itertools.islice"}
+
+
 def _calls_local_dict_builder(call):
     return False
 
@@ -513,6 +517,30 @@ def rule_globalmut_direct(report, index, clause=None):
                                 return f"{c.module.path}:{c.name}.{expr.attr}"
             return None
 
+        # a local name bound ONCE to a shared object is that object (`options = DEFAULTS; options.update(...)`)
+        aliases, bound = {}, {}
+        for node in walk_no_nested(fn.node):
+            if isinstance(node, ast.Assign):
+                for t in node.targets:
+                    if isinstance(t, ast.Name):
+                        bound[t.id] = bound.get(t.id, 0) + 1
+                        if len(node.targets) == 1:
+                            g_ = global_of(node.value)
+                            if g_:
+                                aliases[t.id] = g_
+            elif isinstance(node, (ast.For, ast.comprehension, ast.AugAssign, ast.With)):
+                for tt in ast.walk(node.target if not isinstance(node, ast.With) else ast.Tuple(
+                        elts=[i.optional_vars for i in node.items if i.optional_vars is not None], ctx=ast.Store())):
+                    if isinstance(tt, ast.Name):
+                        bound[tt.id] = bound.get(tt.id, 0) + 2
+        aliases = {k: v for k, v in aliases.items() if bound.get(k) == 1 and k not in fn.params}
+        plain_global_of = global_of
+
+        def global_of(expr, _plain=plain_global_of):      # noqa: F811
+            if isinstance(expr, ast.Name) and expr.id in aliases:
+                return aliases[expr.id] + f" (through the local name {expr.id})"
+            return _plain(expr)
+
         for node in walk_no_nested(fn.node):
             hit = None
             if isinstance(node, (ast.Assign, ast.AugAssign, ast.Delete)):
@@ -532,6 +560,24 @@ def rule_globalmut_direct(report, index, clause=None):
             if hit:
                 n_sites += 1
                 found.append((fn, node, hit))
+    # module-level one-shot iterators (zip, map, filter, iter, reversed, enumerate, a generator expression): the first
+    # function call that walks one uses it up for every later call
+    oneshot = {}
+    for m in index.modules.values():
+        for name, vals in m.assigns.items():
+            for v in vals:
+                e_ = v.value if isinstance(v, (ast.Assign, ast.AugAssign)) else v
+                if isinstance(e_, ast.GeneratorExp) or (isinstance(e_, ast.Call) and call_name(e_) in ONESHOT_FACTORIES):
+                    oneshot[(m.path, name)] = e_
+    for fn in index.all_functions():
+        stored = {t.id for n_ in walk_no_nested(fn.node) if isinstance(n_, ast.Assign) for t in n_.targets if isinstance(t, ast.Name)}
+        for node in walk_no_nested(fn.node):
+            if isinstance(node, ast.Name) and isinstance(node.ctx, ast.Load) and node.id not in stored and node.id not in fn.params:
+                b = index.resolve(fn.module, node.id)
+                if b is not None and b.kind == "const" and (b.module.path, b.name) in oneshot:
+                    n_sites += 1
+                    found.append((fn, node, f"{b.module.path}:{b.name} = {short(oneshot[(b.module.path, b.name)])} (a one-shot iterator: "
+                                            "the first call that walks it leaves nothing for the next)"))
     for fn, node, hit in found:
         report.violation(rule, (fn, node), f"mutation of shared object {hit}", short(node), clause)
     report.check(True, rule, ("pycaption", "<package>"),
